@@ -25,6 +25,7 @@ import (
 	"path/filepath"
 	"runtime"
 	"sort"
+	"strings"
 	"sync"
 
 	"github.com/ontio/ontology/common"
@@ -364,12 +365,12 @@ func (c *ctx) checkProofs(t *merkle.CompactMerkleTree, ref *rfc6962.Tree, n int,
 		r.Eval(fmt.Sprintf("%s/inc/%d/%d", src, m, n))
 		r.Count("inclusion_pairs")
 		if err != nil {
-			r.Violation("inclusion:generate-error:"+sizeClass(n), "InclusionProof failed for a leaf of the tree: "+err.Error(), map[string]interface{}{"source": src, "m": m, "n": n, "tree_size": t.TreeSize(), "leaves": c.leavesWitness(n)})
+			r.Violation(srcKey(src)+"inclusion:generate-error:"+sizeClass(n), "InclusionProof failed for a leaf of the tree: "+err.Error(), map[string]interface{}{"source": src, "m": m, "n": n, "tree_size": t.TreeSize(), "leaves": c.leavesWitness(n)})
 			continue
 		}
 		want := ref.Path(m, n)
 		if !sameProof(proof, want) {
-			r.Violation("inclusion:differs-from-rfc:"+sizeClass(n)+":"+posClass(m, n), "InclusionProof(m,n) is not PATH(m, D[0:n]) of RFC 6962",
+			r.Violation(srcKey(src)+"inclusion:differs-from-rfc:"+sizeClass(n)+":"+posClass(m, n), "InclusionProof(m,n) is not PATH(m, D[0:n]) of RFC 6962",
 				map[string]interface{}{"source": src, "m": m, "n": n, "got": hexes(proof), "leaves": c.leavesWitness(n)})
 		}
 		if p := vf.Catch(func() { err = c.ver.VerifyLeafHashInclusion(c.leaves[m], uint32(m), proof, rootN, uint32(n)) }); p != nil {
@@ -377,7 +378,7 @@ func (c *ctx) checkProofs(t *merkle.CompactMerkleTree, ref *rfc6962.Tree, n int,
 			continue
 		}
 		if err != nil {
-			r.Violation("inclusion:verify-rejects-valid:"+sizeClass(n)+":"+posClass(m, n), "the tree's own inclusion proof does not verify against the head of size n: "+err.Error(),
+			r.Violation(srcKey(src)+"inclusion:verify-rejects-valid:"+sizeClass(n)+":"+posClass(m, n), "the tree's own inclusion proof does not verify against the head of size n: "+err.Error(),
 				map[string]interface{}{"source": src, "m": m, "n": n, "root": vf.Hex(rootN[:]), "proof": hexes(proof), "leaves": c.leavesWitness(n)})
 			continue
 		}
@@ -410,7 +411,7 @@ func (c *ctx) checkProofs(t *merkle.CompactMerkleTree, ref *rfc6962.Tree, n int,
 		}
 		wantC := ref.Proof(om, n)
 		if !sameProof(cp, wantC) {
-			r.Violation("consistency:differs-from-rfc:"+sizeClass(om)+":"+sizeClass(n), "ConsistencyProof(m,n) is not PROOF(m, D[0:n]) of RFC 6962",
+			r.Violation(srcKey(src)+"consistency:differs-from-rfc:"+sizeClass(om)+":"+sizeClass(n), "ConsistencyProof(m,n) is not PROOF(m, D[0:n]) of RFC 6962",
 				map[string]interface{}{"source": src, "m": om, "n": n, "got": hexes(cp), "leaves": c.leavesWitness(n)})
 		}
 		rootM := H(ref.Root(om))
@@ -419,7 +420,7 @@ func (c *ctx) checkProofs(t *merkle.CompactMerkleTree, ref *rfc6962.Tree, n int,
 			continue
 		}
 		if err != nil {
-			r.Violation("consistency:verify-rejects-valid:"+sizeClass(om)+":"+sizeClass(n), "the tree's own consistency proof does not verify: "+err.Error(),
+			r.Violation(srcKey(src)+"consistency:verify-rejects-valid:"+sizeClass(om)+":"+sizeClass(n), "the tree's own consistency proof does not verify: "+err.Error(),
 				map[string]interface{}{"source": src, "m": om, "n": n, "old_root": vf.Hex(rootM[:]), "new_root": vf.Hex(rootN[:]), "proof": hexes(cp), "leaves": c.leavesWitness(n)})
 			continue
 		}
@@ -428,6 +429,14 @@ func (c *ctx) checkProofs(t *merkle.CompactMerkleTree, ref *rfc6962.Tree, n int,
 			c.checkConsistencyMutants(conTuple{uint32(om), uint32(n), rootM, rootN, cp}, g, src)
 		}
 	}
+}
+
+// srcKey: violations seen on a reloaded / file-backed tree carry the persistence shape in their key.
+func srcKey(src string) string {
+	if strings.HasPrefix(src, "reload:") || strings.HasPrefix(src, "file-") {
+		return "persist:" + strings.TrimSuffix(strings.TrimPrefix(src, "reload:"), ":grow") + ":"
+	}
+	return ""
 }
 
 func allM(n int) []int {
@@ -464,7 +473,7 @@ func (c *ctx) appendChecked(t *merkle.CompactMerkleTree, ref *rfc6962.Tree, st *
 		r.Eval(fmt.Sprintf("%s/newleaf/%d", src, n))
 		r.Count("root_with_new_leaf")
 		if got != H(ref.Root(n)) {
-			r.Violation("root:with-new-leaf:"+sizeClass(n), "GetRootWithNewLeaf differs from the head of the extended list", map[string]interface{}{"source": src, "n": n, "got": vf.Hex(got[:]), "want": hx(ref.Root(n)), "leaves": c.leavesWitness(n)})
+			r.Violation(srcKey(src)+"root:with-new-leaf:"+sizeClass(n), "GetRootWithNewLeaf differs from the head of the extended list", map[string]interface{}{"source": src, "n": n, "got": vf.Hex(got[:]), "want": hx(ref.Root(n)), "leaves": c.leavesWitness(n)})
 		}
 	}
 	for _, k := range []int{0, 1, 2, 3, 5, 8} {
@@ -499,7 +508,7 @@ func (c *ctx) appendChecked(t *merkle.CompactMerkleTree, ref *rfc6962.Tree, st *
 		}
 	}
 	if mutated != "" {
-		r.Violation("lookahead-mutates:"+mutated, "GetRootWithNewLeaf/GetRootWithNewLeaves changed the tree's "+mutated, map[string]interface{}{"source": src, "size": n - 1, "leaves": c.leavesWitness(n)})
+		r.Violation(srcKey(src)+"lookahead-mutates:"+mutated, "GetRootWithNewLeaf/GetRootWithNewLeaves changed the tree's "+mutated, map[string]interface{}{"source": src, "size": n - 1, "leaves": c.leavesWitness(n)})
 	} else {
 		r.Count("lookahead_left_tree_untouched")
 	}
@@ -517,19 +526,19 @@ func (c *ctx) appendChecked(t *merkle.CompactMerkleTree, ref *rfc6962.Tree, st *
 	want := H(ref.Root(n))
 	full := hasher.HashFullTreeWithLeafHash(c.leaves[:n])
 	if full != want {
-		r.Violation("root:fulltree-differs-from-rfc:"+sizeClass(n), "TreeHasher.HashFullTreeWithLeafHash differs from MTH of RFC 6962", map[string]interface{}{"n": n, "got": vf.Hex(full[:]), "want": vf.Hex(want[:]), "leaves": c.leavesWitness(n)})
+		r.Violation(srcKey(src)+"root:fulltree-differs-from-rfc:"+sizeClass(n), "TreeHasher.HashFullTreeWithLeafHash differs from MTH of RFC 6962", map[string]interface{}{"n": n, "got": vf.Hex(full[:]), "want": vf.Hex(want[:]), "leaves": c.leavesWitness(n)})
 	}
 	if t.TreeSize() != uint32(n) {
-		r.Violation("append:tree-size", "TreeSize after append", map[string]interface{}{"source": src, "n": n, "got": t.TreeSize()})
+		r.Violation(srcKey(src)+"append:tree-size", "TreeSize after append", map[string]interface{}{"source": src, "n": n, "got": t.TreeSize()})
 	}
 	if root != want {
-		r.Violation("root:incremental:"+sizeClass(n), "Root() after AppendHash differs from the head of the full tree", map[string]interface{}{"source": src, "n": n, "got": vf.Hex(root[:]), "want": vf.Hex(want[:]), "leaves": c.leavesWitness(n)})
+		r.Violation(srcKey(src)+"root:incremental:"+sizeClass(n), "Root() after AppendHash differs from the head of the full tree", map[string]interface{}{"source": src, "n": n, "got": vf.Hex(root[:]), "want": vf.Hex(want[:]), "leaves": c.leavesWitness(n)})
 		return false
 	}
 	if !sameProof(audit, ref.Path(n-1, n)) {
-		r.Violation("audit-path:differs-from-rfc:"+sizeClass(n), "audit path returned by AppendHash is not PATH(n-1, D[0:n])", map[string]interface{}{"source": src, "n": n, "got": hexes(audit), "leaves": c.leavesWitness(n)})
+		r.Violation(srcKey(src)+"audit-path:differs-from-rfc:"+sizeClass(n), "audit path returned by AppendHash is not PATH(n-1, D[0:n])", map[string]interface{}{"source": src, "n": n, "got": hexes(audit), "leaves": c.leavesWitness(n)})
 	} else if err := c.ver.VerifyLeafHashInclusion(leaf, uint32(n-1), audit, root, uint32(n)); err != nil {
-		r.Violation("audit-path:verify-rejects:"+sizeClass(n), "audit path returned by AppendHash does not verify: "+err.Error(), map[string]interface{}{"source": src, "n": n, "audit": hexes(audit), "leaves": c.leavesWitness(n)})
+		r.Violation(srcKey(src)+"audit-path:verify-rejects:"+sizeClass(n), "audit path returned by AppendHash does not verify: "+err.Error(), map[string]interface{}{"source": src, "n": n, "audit": hexes(audit), "leaves": c.leavesWitness(n)})
 	} else {
 		r.Count("audit_path_verified")
 	}
